@@ -250,26 +250,45 @@ def describe(key, ob, r=None):
     return d
 
 
+class Obs(dict):
+    """an observation whose msg / rep_msg / kernels / rep indices are resolved through the group's tables on access"""
+    def __init__(self, r, g):
+        super().__init__(r)
+        self._g = g
+
+    def __getitem__(self, k):
+        v = super().__getitem__(k)
+        if k in ('msg', 'rep_msg'):
+            return self._g['msgs'][v]
+        if k == 'kernels':
+            return self._g['ksets'][v]
+        if k == 'rep':
+            return self._g['graphs'][v]
+        return v
+
+
 def run_harness(ctx, groups):
     keys = list(groups)
     payload = {'names11': NAMES11, 'extras': EXTRAS, 'nproc': vlib.NCPU,
                'groups': [{'o': k[0], 't': k[1], 'sc': k[2], 'obs': groups[k]} for k in keys]}
     res = ctx.run_impl('c02_impl.py', payload, timeout=3000)
+    for g in res['groups']:
+        g['obs'] = [Obs(r, g) for r in g['obs']]
     return keys, res
 
 
 def report_property_failures(ctx, keys, groups, res):
     """violations of the property TEXT seen on the implementation (independent restatement in the harness)"""
-    n = 0
+    n = []
     for k, g in zip(keys, res['groups']):
         for ob, r in zip(groups[k], g['obs']):
             why = r['prop']
             if not r['unchanged']:
                 ctx.note(f'input modified by convert on {describe(k, ob)} (C09 covers this)')
             if why:
-                n += 1
+                n.append(describe(k, ob, r))
                 cls = why.split(':')[0]
-                ctx.violation(f'{k[0]}>{k[1]}:{"scatter" if k[2] else "noscatter"}:{cls}',
+                ctx.violation(f'{cls}:{k[1]}:{"scatter" if k[2] else "noscatter"}',
                               f'convert(origin={k[0]!r}, target={k[1]!r}, scatter={k[2]}) with coordinates '
                               f'{describe(k, ob)["supplied"]}: {why}', describe(k, ob, r))
     return n
@@ -279,7 +298,7 @@ def correspondence(ctx):
     rng = random.Random(ctx.seed)
     groups = make_groups(ctx, rng)
     keys, res = run_harness(ctx, groups)
-    nprop = report_property_failures(ctx, keys, groups, res)
+    nprop = len(report_property_failures(ctx, keys, groups, res))
     # ---- Coq comparison: one case term per (o,t,sc) group; tables per shard
     per_shard = 8 if ctx.tier == 'quick' else 1
     files = []
@@ -341,7 +360,7 @@ def correspondence(ctx):
         'exhaustive': True,
         'exhaustive_note': 'the THEOREMS are exhaustive over the 786 432 configurations (vm_compute on the regenerated code); '
                            'the correspondence with the real implementation is '
-                           + ('sampled (quick tier)' if ctx.tier == 'quick' else 'exhaustive over (origin,target,scatter,subset) on DataArray, extras/Dataset sampled'),
+                           + ('sampled (quick tier)' if ctx.tier == 'quick' else 'exhaustive over (origin,target,scatter,subset); extras on a random half, 5% of the calls on a Dataset'),
         'configurations_enumerated_in_coq': len(ORIGINS) * len(TARGETS) * 2 * 2 * 2048,
         'evaluations': len(allobs),
         'distinct_nontrivial': distinct,
@@ -404,11 +423,10 @@ def search(ctx, broken):
                 for p in structured + [rng.randrange(2048) for _ in range(24)]:
                     groups.setdefault((o, t, sc_), []).append({'x': rng.random() < 0.5, 'p': p, 'ds': False, 'seed': rng.randrange(1 << 30)})
     keys, res = run_harness(ctx, groups)
-    before = len(ctx.violations)
-    report_property_failures(ctx, keys, groups, res)
-    for v in ctx.violations[before:]:
-        found.append(v.replay)
-    if not found and cands:
+    found = report_property_failures(ctx, keys, groups, res)
+    if found:
+        ctx.note(f'search: the property text fails on {len(found)} of {sum(len(v) for v in groups.values())} swept inputs')
+    if not found and cands and not any(v.found_input for v in ctx.violations):
         # the model fails but the implementation satisfies the property text on the same input: name the input anyway
         c = cands[0]
         k = (c['o'], c['t'], c['sc'])
